@@ -103,6 +103,10 @@ fn main() {
         println!("seeds written");
         return;
     }
+    if args.len() >= 3 && args[1] == "gen-fixtures-tiny" {
+        c12::gen_tiny_fixtures(&args[2]).expect("fixtures");
+        return;
+    }
     if args.len() >= 3 && args[1] == "gen-fixtures" {
         c12::gen_fixtures(&args[2]).expect("fixtures");
         println!("fixtures written to {}", args[2]);
